@@ -195,7 +195,7 @@ func (j *judge) explore(nodes map[string]*node, bp BatchProject, seed, pidx uint
 			}
 		}
 		// a response payload that violates its own field validators (only matters with validateResponsePayload)
-		if rt.M.Ret == "value" && rt.M.RetType.Kind == "struct" && !rt.M.RetType.Slice {
+		if rt.M.Ret == "value" && rt.M.RetType.Kind == "struct" {
 			bg := &bodyGen{p: bp.Project, r: r, violate: true}
 			t := rt.M.RetType
 			t.Ptr = false
@@ -207,15 +207,20 @@ func (j *judge) explore(nodes map[string]*node, bp BatchProject, seed, pidx uint
 				add(p)
 			}
 		}
-		// a request body that violates a top-level field validator of the body struct
+		// a request body that violates a top-level field validator of the body struct (or of one element of
+		// a body that is a slice of structs)
 		for _, prm := range rt.M.Params {
-			if prm.Loc == "body" && prm.Type.Kind == "struct" && !prm.Type.Slice {
+			if prm.Loc == "body" && prm.Type.Kind == "struct" {
 				bg := &bodyGen{p: bp.Project, r: r, violate: true}
 				t := prm.Type
 				t.Ptr = false
 				js := bg.valueJSON(t, "", 0)
 				if bg.violated != "" {
-					p := pl.buildForced(ri, "damaged", map[string]string{prm.GoName: "garble"}, false, map[string][]WireVal{prm.GoName: {{Raw: js, Class: "field-violates-validator"}}})
+					cls := "field-violates-validator"
+					if prm.Type.Slice {
+						cls = "element-field-violates-validator"
+					}
+					p := pl.buildForced(ri, "damaged", map[string]string{prm.GoName: "garble"}, false, map[string][]WireVal{prm.GoName: {{Raw: js, Class: cls}}})
 					add(p)
 				}
 			}
